@@ -57,7 +57,7 @@ def gen_world(rng, wid):
                 qi = pk.index(q)
                 if pkgs[qi]["vars"] and rng.random() < 0.6:
                     cross.append((q, rng.choice(pkgs[qi]["vars"])["name"]))
-            patched = rng.choice([None, None, None, "atomic", "reflect", "once"]) if rng.random() < 0.5 else None
+            patched = rng.choice([None, None, None, "atomic", "reflect", "once", "rtvar", "embedfs"]) if rng.random() < 0.5 else None
             vars_.append({"name": names[k], "deps": deps, "via": via, "cross": cross, "patched": patched,
                           "file": "a" if k < (nv + 1) // 2 else "b"})
         p["vars"] = vars_
@@ -74,7 +74,7 @@ def gen_world(rng, wid):
                 val += done[d]
             for q, qv in v["cross"]:
                 val += values[(q, qv)]
-            val += {"atomic": 5, "reflect": 2, "once": 7, None: 0}[v["patched"]]
+            val += {"atomic": 5, "reflect": 2, "once": 7, "rtvar": 4, "embedfs": 6, None: 0}[v["patched"]]
             done[v["name"]] = val % 1000003
             values[(p["name"], v["name"])] = done[v["name"]]
     return {"id": wid, "pkgs": pkgs, "values": {"%s.%s" % k: v for k, v in values.items()}}
@@ -88,6 +88,7 @@ def render_world(world, moddir, modname):
         uses_atomic = any(v["patched"] == "atomic" for v in p["vars"])
         uses_reflect = any(v["patched"] == "reflect" for v in p["vars"])
         uses_once = any(v["patched"] == "once" for v in p["vars"])
+        uses_embed = any(v["patched"] == "embedfs" for v in p["vars"])
         imports_a = ['"%s/%s"' % (modname, q) for q in p["imports"]]
         head = {"a": ["package %s" % p["name"], ""], "b": ["package %s" % p["name"], ""]}
         need = {"a": set(), "b": set()}
@@ -108,6 +109,15 @@ def render_world(world, moddir, modname):
             if v["patched"] == "once":
                 terms.append("onceVal%s()" % v["name"])
                 need[f].add("sync")
+            if v["patched"] == "rtvar":
+                # state set up by the initialiser of package runtime (the GC percentage, 100 unless GOGC is set): runtime is
+                # initialised before its importers
+                terms.append("debug.SetGCPercent(100)/25")
+                need[f].add("runtime/debug")
+            if v["patched"] == "embedfs":
+                # an embed.FS variable is set before any initialisation code of its package runs
+                terms.append("embLen()")
+                uses_embed = True
             k = int(v["name"][1:])
             files[f].append("var %s = tr(\"%s\", %d%s)" % (v["name"], v["name"], 1 + k, "".join(", " + t for t in terms)))
             files[f].append("func get%s() int { return %s }" % (v["name"], v["name"]))
@@ -120,6 +130,14 @@ def render_world(world, moddir, modname):
             for _ in range(cnt):
                 k += 1
                 files[f].append("func init() { println(\"I\", \"%s\", %d) }" % (p["name"], k))
+        if uses_embed:
+            need["a"].add("embed")
+            # declared first: a variable without initialiser still takes its turn in declaration order, and the
+            # variables reading it (through embLen) depend on it
+            files["a"].insert(0, "//go:embed c12data.txt\nvar c12fs embed.FS\n\nfunc embLen() int {\n\tb, err := c12fs.ReadFile(\"c12data.txt\")\n"
+                              "\tif err != nil {\n\t\treturn 0\n\t}\n\treturn len(b)\n}")
+            with open(os.path.join(d, "c12data.txt"), "w") as fh:
+                fh.write("hello\n")
         files["a"].append('''func tr(name string, base int, xs ...int) int {
 	s := base
 	for _, x := range xs {
@@ -138,7 +156,7 @@ def render_world(world, moddir, modname):
                 continue
             imps = []
             for q in sorted(need[f]):
-                if q in ("sync/atomic", "reflect", "sync"):
+                if q in ("sync/atomic", "reflect", "sync", "runtime/debug", "embed"):
                     imps.append('"%s"' % q)
                 else:
                     imps.append('"%s/%s"' % (modname, q))
